@@ -795,7 +795,7 @@ func runSched(c caseIn) *caseOut {
 				out.Lists = append(out.Lists, row)
 			}
 		case strings.HasPrefix(k, removalPrefix):
-			out.Guards = append(out.Guards, idNum("hdm_"+strings.TrimPrefix(k, removalPrefix)))
+			out.Guards = append(out.Guards, idNum(strings.TrimPrefix(k, removalPrefix)))
 		case k == repos.KeyHTTPDomainNextID:
 			out.Next, _ = strconv.Atoi(v)
 		}
